@@ -90,13 +90,17 @@ def explain(mm):
     a = mm.get("a", {})
     fields = mm.get("fields") or []
     oracle = " ".join(mm.get("oracle") or [])
+    if "dead frames" in oracle:
+        return "DevRejectedStillReads"
+    if "duplicate:" in oracle:
+        return "DevRegisterReplaces"
+    if "stale teardown" in oracle:
+        return "DevTeardownDeregistersByIdentity" if "registration" in oracle else "DevCleanupByIdentityOnStaleCallback"
     if a.get("act") in ("KaTimeout", "ReadTeardown"):
-        if "registration" in oracle or any(f.startswith("reg.") for f in fields):
-            return "DevTeardownDeregistersByIdentity"
-        return "DevCleanupByIdentityOnStaleCallback"
+        return "DevTeardownDeregistersByIdentity" if any(f.startswith("reg.") for f in fields) else "DevCleanupByIdentityOnStaleCallback"
     if a.get("act") in ("AcceptHello", "DeliverAck"):
         return "DevRegisterReplaces"
-    if "dead frames" in oracle or any(f.startswith("proc.") for f in fields):
+    if any(f.startswith("proc.") for f in fields):
         return "DevRejectedStillReads"
     return None
 
@@ -105,9 +109,9 @@ def report(ctx, mdl, rp):
     n = 0
     for sc in rp["scenarios"]:
         if sc.get("oracle"):
-            d = sc["name"]
+            d = explain({"oracle": sc["oracle"]}) or sc["name"]
             ctx.finding("PeerReg:%s:%s" % (d, SITE[d]),
-                        "schedule of TLC's counterexample for %s on real agents: %s" % (d, "; ".join(sc["oracle"])), sc)
+                        "schedule of TLC's counterexample for %s on real agents: %s" % (sc["name"], "; ".join(sc["oracle"])), sc)
             n += 1
     for mm in rp["mismatches"]:
         if mm.get("class") != "viol":
